@@ -129,6 +129,16 @@ theorem dispFits_noEol {T : Tables} {L : Lib J} {d : Disp σ J} (hd : DispFits T
   rw [hr] at hres
   exact wf r hres.1
 
+/-- … and its replies belong to the requests -/
+theorem dispFits_answers {T : Tables} {L : Lib J} {d : Disp σ J} (hd : DispFits T L d) : DispAnswers T d := by
+  intro st t
+  have h := (hd st t).2
+  cases hr : (d st t).1.res with
+  | ok r => rw [hr] at h; exact h.2
+  | secop c => rw [hr] at h; exact h
+  | exc => trivial
+  | garbage => trivial
+
 theorem eol_handleLine (T : Tables) (L : Lib J) (d : Disp σ J) (laws : LibLaws L) (tf : TableNoEol T)
     (hd : DispNoEol d) (st : σ) (line : Bytes) (hline : EOL ∉ line) :
     ∀ o ∈ (handleLine T L d st line).1, EOL ∉ joined L o.msg := by
